@@ -317,7 +317,7 @@ Definition example_semantic_text : list ascii := text_of_lines
 Definition example_illegal_text : list ascii := text_of_lines
   [ "Task productionTask"; "    Move $"; "End" ].
 
-(* 01 7f { ] T a s k 00 SPACE 9 . e " ~ ` c3 a9 *)
+(* the bytes 01 7f, then { ] T a s k, 00, a blank, 9 . e, a quote, ~ and a backquote, c3 a9 *)
 Definition example_bytes : list ascii := unhex "017f7b5d5461736b0020392e65227e60c3a9".
 
 (* the first 200 characters of the valid text: it ends inside the struct literal *)
@@ -333,3 +333,9 @@ Definition example_nested_array : list ascii := text_of_lines
     "Task productionTask";
     "    Move"; "        In"; "            Pos"; "            {";
     "                ""x"": [[1], 2]"; "            }"; "End" ].
+
+(* n times '!' before the guard 'true' (finding D29: the implementation raised RecursionError from
+   about n = 246 on; since 6d2e0d4 it answers invalid there — the recursion limit is not modelled) *)
+Definition example_deep_not (n : nat) : list ascii :=
+  (chars "Task productionTask" ++ [ch_lf] ++ chars "    Loop While " ++ repeat "!"%char n ++ chars "true"
+   ++ [ch_lf] ++ chars "        Move" ++ [ch_lf] ++ chars "End" ++ [ch_lf])%list.
